@@ -47,7 +47,9 @@ CLAIMS['C11'] = {
             'plus wake-all in one atomic block under `not closed`, the order of the '
             'empty/closed tests on every leaving path, pop->yield window, FIFO buffer '
             'operations; each subscription registers under a fresh key of its own (same-object '
-            'identity followed through locals and helpers). Message sequences as values are '
+            'identity followed through locals and helpers); a consumer waits for the '
+            'notification only after it saw the channel open in the same atomic block. '
+            'Message sequences as values are '
             'not decided.',
     'note': _NOTE,
 }
@@ -72,7 +74,8 @@ CLAIMS['C12'] = {
             'compensation; each debit is dominated by the availability predicate (test, await '
             'post-condition or usage assertion); claim/borrow/guard use one predicate; claim '
             'never suspends before taking; forced close is suspension free; generated level '
-            'arithmetic uses the right symbols. One genuine defect is recorded as known '
+            'arithmetic uses the right symbols; shares made by borrow/claim start empty and '
+            'root supplies start with their declared levels. One genuine defect is recorded as known '
             'finding (nested borrow outliving its share). Level values after a history are '
             'not decided.',
     'note': _NOTE,
@@ -97,7 +100,9 @@ CLAIMS['C04'] = {
             '_close_scope orders interrupts-off/children/volatile; _await_children leaves only '
             'after testing the live list empty after its last suspension; closing loops '
             'iterate copies; do() registers/refuses correctly and __child_finished__ agrees '
-            'on the list; the wrapper reports exactly once; Task.__close__ handles started and '
+            'on the list; every way through _disable_interrupts of each scope class marks the '
+            'scope closed and withdraws its own signals; the wrapper reports exactly once; '
+            'Task.__close__ handles started and '
             'unstarted tasks; forced-close discipline over all 75 suspension-capable '
             'function/receiver pairs. That user payloads do not swallow GeneratorExit is '
             'assumed.',
@@ -153,7 +158,8 @@ CLAIMS['C07'] = {
             'scope created itself, with the truth-inlined __aexit__ ending silently exactly '
             'for them; immediacy <=> truth of every condition class a block can be given '
             '(generic subscribe by paths, time conditions by exhaustive ordering tables, '
-            'Delay by plumbing); trigger coverage (known finding: All/Any); shape of the '
+            'Delay by plumbing); trigger coverage (known finding: All/Any); Task.__close__ '
+            'finalising started and unstarted children alike (rule shared with C04); shape of the '
             'run(till) root. Exit time = min(trigger, completion) as a number is not decided.',
     'note': _NOTE,
 }
@@ -167,7 +173,10 @@ CLAIMS['C03'] = {
             'subscribe/unsubscribe agreement per notification class with helpers inlined; '
             'revoked activations skipped and the flag plumbing of Activation/Interrupt/'
             'Loop.schedule; immediacy <=> truth (no spin); schedule precondition (C01/L3); '
-            'forced-close discipline and the sound not-started predicate. Absence of livelock '
+            'forced-close discipline and the sound not-started predicate; the closing '
+            'sequence on every way out of a scope (rule shared with C04) and the Lock '
+            'discipline behind the kernel assertion in Lock.__aexit__ (rules of C09). '
+            'Absence of livelock '
             'for arbitrary programs needs a ranking argument over run-time state and is not '
             'decided.',
     'note': _NOTE,
@@ -188,13 +197,15 @@ CLAIMS['C16'] = {
             'children, results awaited in argument order after the scope, count check before '
             'the scope, one FIFO queue sliced by count, yield inside the scope), plus the '
             'path rule that closing first() at its yield runs Scope.__aexit__(GeneratorExit) '
-            'without suspending, and must-yield. Result times are not decided.',
+            'without suspending, must-yield, the closing sequence on every exit of the scope '
+            'and its absorbing only its own cancellation. Result times are not decided.',
     'note': _NOTE,
 }
 
 CLAIMS['C15'] = {
     'text': 'run()/isolation: the state handle is an instance of a threading.local subclass '
-            'and its loop slot has two writers; every module level and class level '
+            'that keeps no attribute in slots (per-thread dictionary) '
+            'and its loop attribute has two writers; every module level and class level '
             'assignment of the package is classified (class, function, constant, TypeVar, '
             'stateless or inert singleton, named type cache) so that no other shared mutable '
             'object can carry simulation state, and no global/nonlocal statement exists; '
@@ -249,7 +260,8 @@ CLAIMS['C18'] = {
             '(flag, trigger, schedule callbacks); callbacks swapped to None before they run '
             'once; undefused failures raised; Event.__await__; Timeout/Process/'
             'InterruptQueue/AllOf/AnyOf plumbing (handler order, suspension-free try body, '
-            'FIFO interrupts, evaluator formulas by normal form); Environment.until/run. '
+            'FIFO interrupts, evaluator formulas by normal form); value/ok of Event and '
+            'AwaitableEvent decided by `exception is None`; Environment.until/run. '
             'Fan-out values/times for arbitrary process graphs and callback effects are not '
             'decided.',
     'note': _NOTE,
